@@ -569,6 +569,21 @@ def run_matrix_maps(pe, acc, case):
         call_checked(pe, acc, 'trace', sub0, 'trace(), pattern %s' % (pa,), lambda x: x.trace(), [M], lambda: [None if c[t] is None else np.trace(c[t]) for t in range(T)], T, 1, key=('tr', T, pa))
         call_checked(pe, acc, 'matrix_symmetric', sub0, 'matrix_symmetric(), pattern %s' % (pa,), lambda x: x.matrix_symmetric(), [M],
                      lambda: [None if c[t] is None else 0.5 * (c[t] + c[t].T) for t in range(T)], T, N, key=('ms', T, pa))
+        # transposed entries with exactly EQUAL central values but different fluctuations: still not a symmetric matrix of observables
+        Q = []
+        for t in range(T):
+            if c[t] is None:
+                Q.append(None)
+                continue
+            q = c[t].copy()
+            q[1, 0] = q[1, 0] + (q[0, 1].value - q[1, 0].value)
+            if q[1, 0].value != q[0, 1].value:
+                q[1, 0] = q[1, 0] + (q[0, 1].value - q[1, 0].value)
+            Q.append(q)
+        if all(x is None or x[1, 0].value == x[0, 1].value for x in Q):
+            MQ = pe.Corr(Q)
+            call_checked(pe, acc, 'matrix_symmetric:equal-means', sub0, 'matrix_symmetric() of a matrix whose transposed entries have equal means, pattern %s' % (pa,), lambda x: x.matrix_symmetric(), [MQ],
+                         lambda: [None if Q[t] is None else 0.5 * (Q[t] + Q[t].T) for t in range(T)], T, N, key=('msq', T, pa))
         vl, vr = np.array([1.0, 2.0]), np.array([-0.5, 1.5])
         for normalize in (False, True):
             nl = vl / np.sqrt(vl @ vl) if normalize else vl
